@@ -218,7 +218,7 @@ impl GenCase {
 
     fn warm(&self, g: &mut Generator, spy: Option<&SpyLog>) {
         for i in 0..self.prior_calls {
-            let _ = call_gen(g, &self.prior_entropy(i));
+            let _ = call_gen_guarded(g, &self.prior_entropy(i));
         }
         if let Some(l) = spy {
             l.lock().unwrap().clear();
@@ -229,7 +229,7 @@ impl GenCase {
     pub fn run(&self) -> Result<Vec<u8>, Failure> {
         let mut g = self.build(None);
         self.warm(&mut g, None);
-        self.call(&mut g)
+        call_gen_guarded(&mut g, &self.entropy)
     }
 
     /// as `run`, with the trace hook armed for the judged call
@@ -266,6 +266,23 @@ pub fn panic_message(p: Box<dyn std::any::Any + Send>) -> String {
     } else {
         "<non-string panic payload>".to_string()
     }
+}
+
+/// emission / entropy-draw budgets for one generation with these knobs (see props::procs): any
+/// generation the harness starts is armed with them, so a runaway loop in the code under test
+/// ends in a panic (a failed generation, judged by C09) instead of hanging the check
+pub fn budgets(min_opcodes: usize, max_opcodes: usize) -> (u64, u64) {
+    let m = min_opcodes.max(max_opcodes) as u64;
+    (3 * m + 8, 100_000 * (m + 8) + 1_000_000)
+}
+
+/// `call_gen` with the budgets armed (for callers that do not arm the trace sink themselves)
+pub fn call_gen_guarded(g: &mut Generator, e: &Entropy) -> Result<Vec<u8>, Failure> {
+    let (fuel, draw_fuel) = budgets(g.min_opcodes, g.max_opcodes);
+    verif::start(TraceCfg { fuel: Some(fuel), draw_fuel: Some(draw_fuel), ..Default::default() });
+    let r = call_gen(g, e);
+    let _ = verif::take();
+    r
 }
 
 pub fn call_gen(g: &mut Generator, e: &Entropy) -> Result<Vec<u8>, Failure> {
